@@ -32,7 +32,7 @@ TIERS = {
 }
 KINDS = ['function', 'lambda', 'builtin', 'callable-instance', 'partial', 'cls-init', 'cls-new', 'cls-both', 'cls-neither', 'cls-meta', 'cls-slots',
          'cls-namedtuple', 'cls-typing-namedtuple', 'cls-abc', 'cls-methods', 'cls-final', 'cls-meta-kwargs',
-         'method-descriptor', 'wrapper-descriptor', 'method-wrapper', 'cls-helper-attr',
+         'method-descriptor', 'wrapper-descriptor', 'method-wrapper', 'cls-helper-attr', 'cls-shadows-registered-method',
          # shapes whose function (or construction function) is itself the product of a functools.wraps-style decorator, i.e. carries `__wrapped__`
          # and a (*args, **kwargs) signature of its own; and a class that inherits its constructor from a @gin.configurable base class
          'function-wrapped', 'lru-cache', 'cls-init-wrapped', 'cls-new-wrapped', 'cls-inherits-configurable']
@@ -47,7 +47,7 @@ INTERACTIVE = ['context-manager', 'enter-exit', 'exit-by-exception', 'exit-by-Ke
 APIS = ['configurable', 'register', 'external']
 # dynamic registration (config text `import m` / `m.K.x = 3`) registers like gin.register; kinds reachable as a module attribute with a parameter
 DYNAMIC_KINDS = ('function', 'lambda', 'callable-instance', 'partial', 'cls-init', 'cls-new', 'cls-both', 'cls-meta', 'cls-slots', 'cls-namedtuple',
-                 'cls-typing-namedtuple', 'cls-abc', 'cls-methods', 'cls-helper-attr') + WRAPPED_KINDS
+                 'cls-typing-namedtuple', 'cls-abc', 'cls-methods', 'cls-helper-attr', 'cls-shadows-registered-method') + WRAPPED_KINDS
 ENABLE_DYNAMIC_REGISTRATION = True
 REQUIRED_BUCKETS = (['kind:' + k for k in KINDS] + ['api:configurable', 'api:register', 'api:external', 'form:decorator', 'form:call', 'override:name',
                     'override:module', 'override:dotted-name', 'path:returned', 'path:object', 'path:selector', 'path:scoped-selector', 'path:reference',
@@ -224,6 +224,16 @@ def make_original(kind, name, variant=0):
     cls = g[name]
     gin.register(cls.__dict__['meth_' + name])
     return Spec(cls, 'x', lambda r: r.x, True, False)
+  elif kind == 'cls-shadows-registered-method':
+    # the (unregistered) base class has a Gin-registered method; the class under test replaces that name by something that is no method
+    # (None, a property, a class attribute): it has no registered method left, so nothing needs overriding
+    import gin
+    shadow = ('None', 'property(lambda self: ("shadow", 0))', '("plain", "attribute")', 'classmethod(lambda cls: ("cm", 0))')[variant % 4]
+    src = ('class %sBase:\n  def __init__(self, x=0):\n    self.x = x\n  def sm_%s(self, m=0):\n    return ("meth", m)\n'
+           'class %s(%sBase):\n  """doc of %s"""\n  sm_%s = %s\n')
+    exec(src % (name, name, name, name, name, name, shadow), g)
+    gin.register(g[name + 'Base'].__dict__['sm_' + name])
+    return Spec(g[name], 'x', lambda r: r.x, True, False)
   elif kind == 'cls-helper-attr':
     # a plain function known to gin that is merely stored on the class: not a method of it, so nothing needs overriding
     import gin
